@@ -368,6 +368,7 @@ def read (bs : Bytes) : Option Module := do
   if hdrs.any (fun h => decide (h.vol ≥ 128)) then none
   let r ← if mi.digital then (takeN 4 r).map (·.2) else some r
   let len := (lr.getD 0 0).toNat
+  if len > 128 then none     -- the order table has 128 entries; longer lengths read zero entries: not modelled
   let restart := (lr.getD 1 0).toNat
   let pat := patCount ords 0
   let smpSize := (hdrs.map fun h => 2 * h.size).sum
